@@ -93,6 +93,9 @@ META = dict(
 )
 
 
+META["rule"] += (
+    " " + 'Added after the second round of seeded changes: Surrogates receives the data Fortran-ordered, as a strided view, or as float32 / int64 when exact.')
+
 # --------------------------------------------------------------------------
 # data
 # --------------------------------------------------------------------------
